@@ -14,7 +14,7 @@ from .. import gen
 from ..common import (Harness, begin_run, install_source_shim, model_apply,
                       ref_outcomes, source_shim)
 from ..rng import run_rng, stable_hash, weighted
-from ..trace import Sim
+from ..trace import HOT_FUNCS, Sim
 from ..world import SimInterrupt, World, is_dispatch_verdict
 
 ID = "C18"
@@ -266,9 +266,13 @@ def setup(fam):
     return h
 
 
+def _sim(fam):
+    return Sim(opcode_funcs=HOT_FUNCS if fam.get("opcode") else None)
+
+
 def dry_run(fam):
     h = setup(fam)
-    sim = Sim()
+    sim = _sim(fam)
     sim.trace_log = []
     hooks0 = dict(h.w.hooks.counts)
     out, exc, n = sim.run(_target_thunk(h, fam))
@@ -322,7 +326,7 @@ def execute(scen):
     h = setup(fam)
     spec, corpus = fam["spec"], fam["corpus"]
     key = fam["label"]
-    sim = Sim()
+    sim = _sim(fam)
     kw = {}
     if fault["kind"] == "crash":
         kw = {"crash_loc": fault["loc"], "crash_nth": fault["nth"], "crash_exc": fault["exc"]}
@@ -441,11 +445,15 @@ def run_job(job):
         fam = fixed_family(job["name"], job["tkind"])
     else:
         fam = seeded_family(job["seed"], job["index"])
+    if job.get("opcode"):
+        fam["opcode"] = True  # crash points between the bytecodes of the publishing functions too
+        fam["label"] += ":opcode"
     h, trace, dry_out, hook_counts = dry_run(fam)
     faults = enumerate_faults(fam, trace, hook_counts, tier)
     stride, part = job["stride"], job["part"]
     stats = {"evaluations": 0, "fired": 0, "families": 1 if part == 0 else 0,
              "by_fault_kind": {}, "by_tkind": {fam["tkind"]: 0},
+             "opcode_evaluations": 0,
              "crash_points": [], "triples": [], "steps": 0, "nofault_mismatch": 0}
     violations = []
     nviol = 0
@@ -465,6 +473,7 @@ def run_job(job):
         scen = {"family": fam, "fault": faults[i]}
         r = execute(scen)
         stats["evaluations"] += 1
+        stats["opcode_evaluations"] += 1 if fam.get("opcode") else 0
         stats["steps"] += r["steps"]
         fk = faults[i]["kind"] + (":" + faults[i].get("exc", "") if faults[i].get("exc") else "")
         if r["fired"]:
@@ -513,11 +522,15 @@ def jobs(tier, seed):
                 for part in range(stride):
                     yield {"kind": "fixed", "name": name, "tkind": tk, "tier": tier,
                            "stride": stride, "part": part}
+        for tk in TARGET_KINDS:
+            for part in range(stride):
+                yield {"kind": "fixed", "name": "chain", "tkind": tk, "tier": tier,
+                       "stride": stride, "part": part, "opcode": True}
         index = 0
         while True:
             for part in range(4):
                 yield {"kind": "seeded", "seed": seed, "index": index, "tier": tier,
-                       "stride": 4, "part": part}
+                       "stride": 4, "part": part, "opcode": index % 3 == 0}
             index += 1
 
 
@@ -580,6 +593,7 @@ def coverage(agg):
         "faults_fired_by_kind": agg.get("by_fault_kind", {}),
         "runs_by_target_kind": agg.get("by_tkind", {}),
         "families": int(agg.get("families", 0)),
+        "evaluations_at_bytecode_granularity": int(agg.get("opcode_evaluations", 0)),
         "families_skipped_nofault_mismatch": int(agg.get("nofault_mismatch", 0)),
         "nofault_mismatch_samples": sorted(agg.get("nofault_samples", set()))[:5],
         "distinct_crash_locations": len(cps),
